@@ -227,27 +227,35 @@ func c07Cases(thorough bool) []c07Case {
 					role = "registered"
 				}
 				for _, pb := range []bool{true, false} {
-
-					for _, snap := range []string{"none", "before", "after", "after-fold"} {
-						if snap == "before" && pos < 3 {
-							continue
-						}
-
-						// build the log: prefix, PANIC entry, rest (indexes shifted by one behind the insertion)
-						var es []ircserver.VEntry
-						es = append(es, base[:pos]...)
-						crashId := base[pos-1].Id + 1
-						es = append(es, ircserver.VEntry{Type: robust.IRCFromClient, Id: crashId, Session: id, Data: "PANIC now", UnixNano: base[pos-1].UnixNano + 1e8, ClientMessageId: 777000 + crashId, RemoteAddr: "10.0.0.1"})
-						for _, e := range base[pos:] {
-							e.Id++
-							if e.Session.Id >= crashId {
-								e.Session.Id++
+					// client message ids are client-chosen and not monotonic: the crashing entry carries an id
+					// above (false) or below (true) every earlier id of its session
+					for _, lowId := range []bool{false, true} {
+						for _, snap := range []string{"none", "before", "after", "after-fold"} {
+							if snap == "before" && pos < 3 {
+								continue
 							}
-							es = append(es, e)
+
+							// build the log: prefix, PANIC entry, rest (indexes shifted by one behind the insertion)
+							var es []ircserver.VEntry
+							es = append(es, base[:pos]...)
+							crashId := base[pos-1].Id + 1
+							es = append(es, ircserver.VEntry{Type: robust.IRCFromClient, Id: crashId, Session: id, Data: "PANIC now", UnixNano: base[pos-1].UnixNano + 1e8, ClientMessageId: 777000 + crashId, RemoteAddr: "10.0.0.1"})
+							cname := h.name
+							if lowId {
+								es[len(es)-1].ClientMessageId = 2 // the base log uses 3*k+1, k >= 1
+								cname += "/low-id"
+							}
+							for _, e := range base[pos:] {
+								e.Id++
+								if e.Session.Id >= crashId {
+									e.Session.Id++
+								}
+								es = append(es, e)
+							}
+							lastE := es[len(es)-1]
+							extra := ircserver.VEntry{Type: robust.IRCFromClient, Id: lastE.Id + 1, Session: robust.Id{Id: 4}, Data: "AWAY :after the crash", UnixNano: lastE.UnixNano + 1e9, ClientMessageId: 888000, RemoteAddr: "10.0.0.4"}
+							cases = append(cases, c07Case{Name: cname, Entries: es, Crash: pos, Role: role, Protobuf: pb, Snapshot: snap, SnapAt: pos - 1, Extra: extra})
 						}
-						lastE := es[len(es)-1]
-						extra := ircserver.VEntry{Type: robust.IRCFromClient, Id: lastE.Id + 1, Session: robust.Id{Id: 4}, Data: "AWAY :after the crash", UnixNano: lastE.UnixNano + 1e9, ClientMessageId: 888000, RemoteAddr: "10.0.0.4"}
-						cases = append(cases, c07Case{Name: h.name, Entries: es, Crash: pos, Role: role, Protobuf: pb, Snapshot: snap, SnapAt: pos - 1, Extra: extra})
 					}
 				}
 			}
@@ -563,7 +571,7 @@ func TestVerifC07(t *testing.T) {
 			}
 		}
 		res.EndStates[fmt.Sprintf("crash contained (%s, snapshot %s)", c.Role, c.Snapshot)]++
-		if len(res.Samples) < 3 && ci%41 == shard {
+		if len(res.Samples) < 1 || (len(res.Samples) < 3 && ci%41 == shard) {
 			res.Samples = append(res.Samples, c.String()+": child exited non-zero, entry marked, two restarts reproduced the expected state")
 		}
 		os.RemoveAll(dir)
